@@ -129,9 +129,18 @@ Definition cls_code (c : boxcls) : nat :=
   | InlineFlexBox => 7 | GridBox => 8 | InlineGridBox => 9 | TableRowBox => 10 | TableRowGroupBox => 11
   | TableColumnBox => 12 | TableColumnGroupBox => 13 | TableCellBox => 14 | TableCaptionBox => 15 end.
 
+(* CSS 2.1 9.7 step 2: an absolutely positioned (absolute / fixed) box does not float; otherwise float is as specified
+   (step 1: with display none float does not apply: not judged) *)
+Definition css_float (p : posv) (f : floatv) : option floatv :=
+  match p with PAbsolute | PFixed => Some FNone | PRunning => None | _ => Some f end.
+(* bit 1: the implementation's computed display is not the CSS table, or its computed float is not CSS 2.1 9.7's, or the
+   generated box is not of the class named after the CSS computed display *)
 Definition display_judge (c : posv * floatv * bool * disp * disp * floatv * nat) : nat :=
   let '(p, f, root, v, d, cf, k) := c in
   let m := display p f root v in
   (if disp_eqb m d && float_eqb (compute_float p f) cf
       && Nat.eqb (match box_class m with Some b => cls_code b | None => 0 end) k then 0 else 1)
-  + (if disp_eqb d (css_display p f root v) then 0 else 2).
+  + (if disp_eqb d (css_display p f root v)
+        && match v, css_float p f with DNone, _ => true | _, Some x => float_eqb cf x | _, None => true end
+        && Nat.eqb (match box_class (css_display p f root v) with Some b => cls_code b | None => 0 end) k
+     then 0 else 2).
